@@ -17,6 +17,7 @@ fn family(name: &str) -> Option<fn(&str) -> String> {
         "refsearch" => fam_ref::refsearch,
         "pvcheck" => fam_ref::pvcheck,
         "pgn" => fam_pgn::run,
+        "lichess" => fam_lichess::run,
         _ => return None,
     })
 }
